@@ -208,7 +208,7 @@ Definition w4 : smodel :=
 (** the merged table of the regression *)
 Definition facts_merged_surr : sym_facts :=
   mkSymFacts OrdDependency SymVarsParsDataSurr StatFloatTimesRate DynCoefTimesRate EqsByVarNames JacEqsByVars
-             LamTimeVarsPars ThirdNumericByName FallbackWarnAnyException TimeShifted.
+             LamTimeVarsPars ThirdNumericByName FallbackWarnAnyException TimeShifted VarSymPlain.
 
 (** the state x = 1 + h, y = 2 (k = 2): every component resolved, the surrogate output included *)
 Definition w4_env (h : Q) : name -> Q :=
